@@ -42,6 +42,7 @@ type probeGo struct {
 	count          uint64
 	alive          bool
 	old            bool // on a connection accepted before the last runtime change of TransferSize
+	frag, nfrag    int  // fragment size used for the call record (0 = one fragment), number of fragments sent
 }
 
 func (p probeGo) coq() string {
@@ -49,14 +50,18 @@ func (p probeGo) coq() string {
 	if p.kind == "WRITE" {
 		k = "PWrite"
 	}
-	return fmt.Sprintf("(mkProbe %s %s %d %d %d %d %d %d %d %d %s %s)", k, CBool(p.tcp), p.cnt, p.off, p.size, p.reclen, p.rpc, p.status, p.count, p.size2, CBool(p.alive), CBool(p.old))
+	return fmt.Sprintf("(mkProbe %s %s %d %d %d %d %d %d %d %d %s %s %d %d)", k, CBool(p.tcp), p.cnt, p.off, p.size, p.reclen, p.rpc, p.status, p.count, p.size2, CBool(p.alive), CBool(p.old), p.frag, p.nfrag)
 }
 func (p probeGo) text() string {
 	via := "handler"
 	if p.tcp {
-		via = fmt.Sprintf("tcp(record %d)", p.reclen)
+		fr := ""
+		if p.frag > 0 {
+			fr = fmt.Sprintf(" in %d fragments of <= %d bytes", p.nfrag, p.frag)
+		}
+		via = fmt.Sprintf("tcp(record %d%s)", p.reclen, fr)
 		if p.old {
-			via = fmt.Sprintf("tcp-old-conn(record %d)", p.reclen)
+			via = fmt.Sprintf("tcp-old-conn(record %d%s)", p.reclen, fr)
 		}
 	}
 	return fmt.Sprintf("%s %s cnt=%d off=%d size=%d => rpc=%d status=%d count=%d size'=%d alive=%v", via, p.kind, p.cnt, p.off, p.size, p.rpc, p.status, p.count, p.size2, p.alive)
@@ -353,10 +358,14 @@ func (c *nfsConn) fsinfo(rootH uint64) []uint64 {
 	nums, _, _ := parseFsinfo(fi.Raw)
 	return nums
 }
+// fragmented sets the fragmentation of the next probe call (the NULL call after it goes out unfragmented).
+func (c *nfsConn) fragmented(frag, empties int) *nfsConn { c.cl.frag, c.cl.empties = frag, empties; return c }
+
 func (c *nfsConn) write(fs *specfs.FS, fh uint64, cnt uint32, off uint64) probeGo {
-	p := probeGo{kind: "WRITE", tcp: true, cnt: cnt, off: off, size: fileSize(fs)}
+	p := probeGo{kind: "WRITE", tcp: true, cnt: cnt, off: off, size: fileSize(fs), frag: c.cl.frag}
 	o, rc := c.call("WRITE", &nfsx.Req{Proc: "WRITE", H: fh, Off: off, Cnt: cnt, Stable: 2, Data: payload23(cnt)})
-	p.reclen, p.rpc = c.cl.lastLen, rc
+	p.reclen, p.rpc, p.nfrag = c.cl.lastLen, rc, c.cl.lastN
+	c.cl.frag, c.cl.empties = 0, 0
 	if o != nil {
 		p.status = o.Status
 		if o.Trail != 0 {
@@ -371,9 +380,10 @@ func (c *nfsConn) write(fs *specfs.FS, fh uint64, cnt uint32, off uint64) probeG
 	return p
 }
 func (c *nfsConn) read(fs *specfs.FS, fh uint64, cnt uint32, off uint64) probeGo {
-	p := probeGo{kind: "READ", tcp: true, cnt: cnt, off: off, size: fileSize(fs)}
+	p := probeGo{kind: "READ", tcp: true, cnt: cnt, off: off, size: fileSize(fs), frag: c.cl.frag}
 	o, rc := c.call("READ", &nfsx.Req{Proc: "READ", H: fh, Off: off, Cnt: cnt})
-	p.reclen, p.rpc = c.cl.lastLen, rc
+	p.reclen, p.rpc, p.nfrag = c.cl.lastLen, rc, c.cl.lastN
+	c.cl.frag, c.cl.empties = 0, 0
 	if o != nil {
 		p.status = o.Status
 		if o.Trail != 0 || (len(o.Nums) > 0 && uint64(len(o.Bytes)) != o.Nums[0]) {
@@ -489,6 +499,45 @@ func tcpC23(in c23In, opts absnfs.ExportOptions, r *Rand, tags map[string]int) (
 		}
 		probes = append(probes, p)
 	}
+	// the same maxima with the call record split into fragments (RFC 5531: any fragmentation is legal; the markers
+	// are framing, not record bytes): 64 KiB, 8 KiB, 1 KiB, 512 and 100 bytes, with a few empty non-final fragments
+	if len(nums) == 6 {
+		frags := []int{65536, 8192, 1024, 512, 100}
+		if wtmax < 65536 { // small records: two sizes are enough, one of them tiny
+			frags = []int{PickInt(r, 1024, 512, 100), PickInt(r, 64, 16, 4, 1)}
+		}
+		type fp struct {
+			cnt  uint64
+			frag int
+		}
+		var plan []fp
+		for _, fsz := range frags {
+			plan = append(plan, fp{wtmax, fsz})
+		}
+		plan = append(plan, fp{nums[4], frags[r.Intn(len(frags))]}, fp{fit, PickInt(r, 1024, 512, 100)}, fp{fit + 4, 1024})
+		for _, x := range plan {
+			if c == nil || x.cnt > c23MaxProbe {
+				continue
+			}
+			p := c.fragmented(x.frag, PickInt(r, 0, 0, 1, 3)).write(fs, fh, uint32(x.cnt), PickU64(r, 0, 7, 4096))
+			if !p.alive {
+				redial()
+			}
+			probes = append(probes, p)
+			tags["fragmented-probes"]++
+			if x.frag <= 1024 && x.cnt == wtmax && wtmax >= 1<<20-4096 {
+				tags["wtmax=cap-in-small-fragments"]++
+			}
+		}
+		if c != nil && rtmax <= c23MaxProbe {
+			p := c.fragmented(PickInt(r, 40, 16, 4), PickInt(r, 0, 2)).read(fs, fh, uint32(rtmax), PickU64(r, 0, 5))
+			if !p.alive {
+				redial()
+			}
+			probes = append(probes, p)
+			tags["fragmented-probes"]++
+		}
+	}
 	// ---------- runtime changes while a connection stays open ----------
 	if c == nil || len(in.seq) == 0 {
 		return
@@ -521,7 +570,7 @@ func tcpC23(in c23In, opts absnfs.ExportOptions, r *Rand, tags map[string]int) (
 		if len(ph.numsOld) == 6 {
 			om, op, or := ph.numsOld[3], ph.numsOld[4], ph.numsOld[0]
 			for _, cnt := range dedupe([]uint64{om, op}) {
-				p := c.write(fs, fh, cnt, PickU64(r, 0, 7, 4096))
+				p := c.fragmented(PickInt(r, 0, 65536, 8192, 1024, 512, 100), PickInt(r, 0, 0, 2)).write(fs, fh, cnt, PickU64(r, 0, 7, 4096))
 				p.old = old
 				ph.probes = append(ph.probes, p)
 				if !p.alive {
@@ -546,7 +595,7 @@ func tcpC23(in c23In, opts absnfs.ExportOptions, r *Rand, tags map[string]int) (
 			ph.numsNew = n.fsinfo(rootH)
 			if len(ph.numsNew) == 6 {
 				if ph.numsNew[3] <= c23MaxProbe {
-					ph.probes = append(ph.probes, n.write(fs, fh, uint32(ph.numsNew[3]), PickU64(r, 0, 7, 4096)))
+					ph.probes = append(ph.probes, n.fragmented(PickInt(r, 0, 0, 1024, 512), 0).write(fs, fh, uint32(ph.numsNew[3]), PickU64(r, 0, 7, 4096)))
 				}
 				if ph.numsNew[0] <= c23MaxProbe {
 					n2 := n
